@@ -450,6 +450,11 @@ def e2e(res, r, n_programs, n_workers, budget_s, corpus_programs):
   res.extra["e2e_names_compared_per_transport"] = n_expect
   res.extra["e2e_expectation_kinds"] = kinds
   res.extra["e2e_transports"] = list(E.TRANSPORTS)
+  res.extra["e2e_options"] = ("Options.create(python_version=(3, 12), typeshed=False, ...) for A and B: with the default "
+                              "typeshed=True a reference to a nested class (A.Node.Inner) makes the loader initialise typeshed, "
+                              "which this sandbox lacks (UsageError 'Couldn't initialize typeshed' = not explorable, never a "
+                              "violation); each B is analysed twice per transport: probes in order, and the read-only "
+                              "inside-value probes in reverse order")
   res.extra["e2e_probes_inside_values"] = n_inside
   res.extra["e2e_names_not_compared_oracle_built_a_bad_call"] = n_tainted
   res.extra["e2e_B_equals_declared_but_A_inferred_other"] = n_infdecl
